@@ -12,8 +12,12 @@ stdout: {"results": [{"error": null|str, "mb": int, "ms": int, "gsizes": [...], 
         ids: position of the spec in the original groups++jobs list (-1 = not one of the original specs);
         request codes as in Bunches/Model.v req_code: 0 batches/create, 1 updates/create, 2 commit, 3 create-fast,
         4 update-fast, 5 job-groups/create, 6 jobs/create.  t_start/t_end: logical clock (one tick per event edge).
-Every request is answered after a pseudo-random number of event-loop turns (from `seed`), so that the concurrently
-spawned job requests start and finish in varying orders.
+Every request is answered after a number of event-loop turns chosen by "delay": "random" (pseudo-random from `seed`),
+"decreasing" (adversarial: the later a request is started the faster it is answered, so requests that are in flight together
+LAND in reverse order) or "zero".  The fake server processes a request when it LANDS (end of its delay) and applies the real
+front end's rule to the specs made by the public API ("nest": "chain"|"tree"|null nests the job groups): a job group whose
+in_update_parent_id has not landed yet, or a job whose in_update_job_group_id has not landed yet, is REFUSED (the request
+raises, as a 400 does); refusals are returned in "refusals": [[what, id, missing id]].
 """
 import asyncio
 import contextlib
@@ -40,6 +44,10 @@ def spec_of_size(ident, size):
     return s
 
 
+class FakeRefused(Exception):
+    pass
+
+
 class FakeResp:
     def __init__(self, body):
         self._body = body
@@ -51,7 +59,11 @@ class FakeResp:
 class FakeClient:
     billing_project = 'verif'
 
-    def __init__(self, index, rng):
+    def __init__(self, index, rng, delay='random'):
+        self.delay = delay
+        self.n_req = 0
+        self.received_groups = set()     # in-update job group ids that have landed
+        self.refusals = []
         self.events = []
         self.clock = 0
         self.index = index       # serialised original spec -> position
@@ -74,9 +86,28 @@ class FakeClient:
         j, jb = self._ids(jobs)
         ev = {'k': code, 'g': g, 'j': j, 'gb': gb, 'jb': jb, 's': self._tick(), 'e': None}
         self.events.append(ev)
-        for _ in range(self.rng.choice([0, 1, 1, 2, 3, 5, 8])):
+        k = self.n_req
+        self.n_req += 1
+        turns = {'zero': 0, 'decreasing': max(1, 40 - 5 * k)}.get(self.delay)
+        if turns is None:
+            turns = self.rng.choice([0, 1, 1, 2, 3, 5, 8])
+        for _ in range(turns):
             await asyncio.sleep(0)
+        # the request LANDS: the server processes it now
         ev['e'] = self._tick()
+        for spec in groups:
+            if isinstance(spec, dict) and 'job_group_id' in spec:
+                p = spec.get('in_update_parent_id')
+                if p is not None and p != 0 and p not in self.received_groups:
+                    self.refusals.append(['job-group-before-parent', spec['job_group_id'], p])
+                    raise FakeRefused(f'job group {spec["job_group_id"]}: parent {p} unknown')
+                self.received_groups.add(spec['job_group_id'])
+        for spec in jobs:
+            if isinstance(spec, dict) and 'job_id' in spec:
+                gid = spec.get('in_update_job_group_id')
+                if gid is not None and gid != 0 and gid not in self.received_groups:
+                    self.refusals.append(['job-before-job-group', spec['job_id'], gid])
+                    raise FakeRefused(f'job {spec["job_id"]}: job group {gid} unknown')
         return FakeResp(answer)
 
     async def _post(self, url, data=None, json=None, **kwargs):  # noqa: A002  pylint: disable=redefined-outer-name
@@ -127,11 +158,15 @@ def run_case(case):
     mb = case['mb'] if case.get('mb') is not None else aioclient.Batch.MAX_BUNCH_BYTESIZE
     ms = case['ms'] if case.get('ms') is not None else aioclient.Batch.MAX_BUNCH_SIZE
     index = {}
-    client = FakeClient(index, rng)
+    client = FakeClient(index, rng, case.get('delay', 'random'))
     batch = aioclient.Batch(client, 7 if created else None, token='t')
     g, j = case['g'], case['j']
     if case.get('mode', 'specs') == 'api':
-        jgs = [batch.create_job_group(attributes={'p': 'x' * s}) for s in g]
+        jgs = []
+        for i, s in enumerate(g):
+            nest = case.get('nest')
+            parent = batch if (not nest or i == 0) else jgs[i - 1] if nest == 'chain' else jgs[(i - 1) // 2]
+            jgs.append(parent.create_job_group(attributes={'p': 'x' * s}))
         for i, s in enumerate(j):
             parent = jgs[i % len(jgs)] if jgs else batch
             parent.create_job('img', ['echo', 'x' * s])
@@ -163,6 +198,7 @@ def run_case(case):
     except Exception as e:  # noqa
         out['error'] = type(e).__name__
     out['events'] = client.events
+    out['refusals'] = client.refusals
     return out
 
 
